@@ -334,7 +334,10 @@ impl CursorTracker for CursorTrackerImpl<'_> {
                         .sum::<usize>()
                         + reverse_col as usize;
 
-                    (new_token_offset + tok.get_content().len() - offset_from_end) as u32
+                    // The lines after the cursor may have been rewritten to be shorter than they
+                    // were (e.g. de-indented multiline strings); stay within the token.
+                    (new_token_offset + tok.get_content().len().saturating_sub(offset_from_end))
+                        as u32
                 }
                 TokPos::Whitespace {
                     col,
